@@ -436,6 +436,29 @@ def _through_unique(F, B, pl, seen, depth=0):
     return False
 
 
+def unjustified_producers(F, E, G, b):
+    """`&mut` borrows of the payload in body b that are not behind the gate / a refresh / a sole-owner type: [(what, span)]."""
+    out = []
+    B = cfg.Body(b)
+    cuts = None
+    for bi, bl in enumerate(b["blocks"]):
+        for s in bl["stmts"]:
+            if s["k"] != "assign":
+                continue
+            rv = s["rv"]
+            if not (rv["k"] == "ref" and rv["mut"] and _has_data(F, rv["place"])):
+                continue
+            root_pl = rv["place"]
+            if _fresh_pointer(F, E, B, root_pl) or _through_unique(F, B, root_pl, set()):
+                continue
+            roots = root_args(B, root_pl["l"])
+            if cuts is None:
+                cuts = gate_cuts(F, G, B, E)
+            if not _justified(F, E, B, cuts, roots, bi):
+                out.append(("mutable borrow of the payload", s["span"]))
+    return out
+
+
 def _gate_def(F, G, rep, tag):
     # ---- R-GATE-DEF / R-ORD-5
     for k, (ordr, why) in G.gates.items():
@@ -481,6 +504,9 @@ def run(ctx, rep):
                     root_pl = None
                     if rv["k"] == "ref" and rv["mut"] and _has_data(F, rv["place"]) and not s["span"].get("exp_internal"):
                         prod, root_pl = "mutable borrow of the payload", rv["place"]
+                    elif rv["k"] == "ref" and rv["mut"] and rv["place"]["p"] and rv["place"]["p"][0] == "deref" and _via_data_pointer_handle(F, B, rv["place"]["l"]) is not None:
+                        # `&mut *p` where p is the value pointer stored in an OffsetArc / ArcBorrow: the payload without passing through INNER
+                        prod, root_pl = "mutable borrow of the payload", _via_data_pointer_handle(F, B, rv["place"]["l"])
                     elif rv["k"] == "cast" and _is_arc_to_unique_cast(F, B, rv):
                         prod, root_pl = "cast of `&mut Arc` to `&mut UniqueArc`", operand_place(rv["op"])
                     elif rv["k"] == "agg" and rv.get("agg") == "adt" and F.path_to_handle.get(rv["adt"]) == "UniqueArc":
@@ -556,6 +582,10 @@ def run(ctx, rep):
 
     c09.rule_decline(ctx, rep)
     rule_panic_decline(ctx, rep)
+    balance.rule_count_addr(ctx, rep)
+    rep.floor("R-COUNT-ADDR", 1, "one instance per run")
+    balance.rule_use_after_release(ctx, rep)  # the gate is only meaningful if nobody keeps using a block after giving its count back
+    rep.floor("R-USE-AFTER-RELEASE", 1, "the one decrementing body")
     rep.floor("R-GATE-DEF", 1, "one gate definition")
     rep.floor("R-GATE", 12, "payload &mut producers, UniqueArc constructions, unsafe-constructor call sites")
 
@@ -612,6 +642,57 @@ def _has_data(F, pl):
         if isinstance(pe, dict) and pe.get("adt") == F.inner_path and F.data_field and pe.get("f") == F.data_field[0]:
             return True
     return False
+
+
+def data_pointer_handles(F):
+    """Handle types that store the *value's* address (their pointer field does not point at INNER): OffsetArc, ArcBorrow, ArcUnion."""
+    out = {}
+    for h, hp in F.handle_paths.items():
+        adt = F.adts.get(hp)
+        if not adt or adt["kind"] != "Struct" or h == "UniqueArc":
+            continue
+        for f in adt["variants"][0]["fields"]:
+            ft = F.ty(f["ty"])
+            pointee = None
+            if ft["k"] in ("ptr", "ref"):
+                pointee = ft["t"]
+            elif ft["k"] == "adt" and ft["path"] == "core::ptr::non_null::NonNull":
+                pointee = next((a["t"] for a in ft.get("args", []) if "t" in a), None)
+            if pointee is None:
+                continue
+            pt = F.ty(pointee)
+            if not (pt["k"] == "adt" and pt["path"] == F.inner_path) and not F.handle_name(pointee):
+                out[hp] = h
+    return out
+
+
+def _via_data_pointer_handle(F, B, l, depth=0):
+    """If raw/reference local `l` is (a cast / `as_ptr` of) the value pointer stored in a data-pointer handle, the place it was read from."""
+    from .. import symx
+
+    dph = getattr(F, "_dph", None)
+    if dph is None:
+        dph = F._dph = data_pointer_handles(F)
+    o = B.origin_local(l)
+    for _ in range(8):
+        if o.get("kind") == "call":
+            t = o["term"]
+            if atomics.callee_of(t) in symx.IDENTITY_CALLS and t["args"]:
+                o = B.origin(t["args"][0])
+                continue
+            return None
+        if o.get("kind") == "place":
+            pl = o["place"]
+            if any(isinstance(pe, dict) and pe.get("adt") in dph for pe in pl["p"]):
+                return pl
+            return None
+        if o.get("kind") == "rvalue" and o["rv"]["k"] in ("ref", "rawptr"):
+            pl = o["rv"]["place"]
+            if any(isinstance(pe, dict) and pe.get("adt") in dph for pe in pl["p"]):
+                return pl
+            return None
+        return None
+    return None
 
 
 def _is_arc_to_unique_cast(F, B, rv):
